@@ -70,4 +70,14 @@ PROPS = {
         assumptions=[COMMON_ASSUME[0], COMMON_ASSUME[1], "slice-to-Vec `.into()`, `bool::then_some` are outlined std expressions with assumed textbook specs", "64-bit target"],
         explanation="lowered real text of both iterators' new/next/decrement/decrement_vec: indexes = the undecided positions in descending order (und_range), two-valued: first call yields the stored all-BOT completion (counter value 0), every later call the binary successor over indexes (val2 + 1, step2), None exactly after the all-TOP vector (value 2^k - 1), positions outside indexes untouched (same_outside); three-valued: state in {0,1,2}^k starting all-2 (decodes to the interpretation itself, lemma_dec3_all2), decrement_vec is the ternary predecessor (val3 - 1, false exactly at 0 with the vector unchanged), next returns dec3(original, indexes, state). Enumeration lemmas: counter value determines the vector (lemma_val2_inj / lemma_val3_inj, lemma_dec3_inj), every completion / refinement is the image of a value in range (lemma_completion_reached, lemma_refinement_reached, bounds 2^k / 3^k), so unit steps over the full range visit each exactly once",
         not_decided=["the composition 'unit steps from 0 to 2^k-1 visit every value once' is arithmetic over the step contracts and is argued in DESIGN, not a machine-checked trace lemma"]),
+    "C18": dict(
+        units=[("ng", "default")], probes=dict(quick=[("ng", "default")], thorough=[("ng", "default")]), depends=[],
+        assumptions=[COMMON_ASSUME[0], COMMON_ASSUME[1],
+                     "roaring::RoaringBitmap is an opaque stub (speclib/stubs_roaring.rs): the set-algebra meaning of insert/remove/contains/len/is_empty/min/bitand/bitor/bitxor/bitxor_assign/clone is ASSUMED",
+                     "derive(Default)/derive(Clone) of NoGood act field-wise on the two bitmaps (assumed); Vec<NoGood>::contains is any(==) with the PartialEq impl whose real text is verified as NoGood::eq__ng",
+                     "usize -> u32 / u64 -> usize try_into().expect(..) conversions are outlined; their success is a precondition (at most u32::MAX statements) and a 64-bit target",
+                     "rule M: try_from_pair_iter is verified for the one instantiation used in the crate (a materialised vector of the filter_map over conclude, which is side-effect free)"],
+        explanation="nogoods denote partial assignments (act, val) over u32 positions; total assignments are spec functions. Verbatim text: is_violating(a,b) <=> a is contained in b; conclude returns a literal only if it is forced; eq, disjunction, len. Lowered text: from_term_vec / update_term_vec are the encode/decode maps; try_from_pair_iter; add_ng in all three duplicate-elimination modes keeps the bucket invariant and satisfies excl_add: a total assignment avoids the new store iff it avoided the old one and does not extend the added nogood (nothing forgotten, nothing invented); conclusions: Some(r) => r extends the interpretation only by literals forced by the stored nogoods (sound_ext), None => no total extension avoids all stored nogoods (no_extension), Some => no stored nogood matches the interpretation (none_matches, i.e. a conflict is always reported when one matches); conclusion_closure: Update(v) => v is a forced extension, Inconsistent => no extension, and the closure loop terminates (the number of undecided positions strictly decreases)",
+        not_decided=["add_ng silently ignores the empty nogood (size 0 has no bucket): the excluded-set equation is stated for non-empty nogoods, for the empty one the store is proved unchanged - documented corner, see DESIGN 5 C18",
+                     "incomplete propagation (a bucket whose conclusions contradict each other is skipped) is consistent with all three clauses and deliberately not flagged"]),
 }
